@@ -191,6 +191,7 @@ def run(ck, facts, tier):
     c08.rule_apply(ck, facts)
     c08.rule_addressing(ck, facts)
     c08.rule_fast_path(ck, facts)
+    c08.rule_no_plan(ck, facts)
     c08.rule_source_size(ck, facts)
     c05.rule_order(ck, facts)
     ck.not_decided("which call sites an edit leaves untouched, and sample-exact continuity of channels that depend only on them")
